@@ -11,6 +11,7 @@ import random
 from simkit import util
 from simkit.util import GRID_US, Inconclusive, Violation
 from models.sm_model import SMModel
+from models import sm_model
 from models import sm_invariants
 
 ENGINE = "sm"
@@ -143,13 +144,36 @@ def _gen_acts(rng, cfg, style):
             acts.append(["done", None, stall, False])
         else:
             acts.append([None, None, stall, False] if stall else None)
+    if style.get("p_seq"):
+        # two actions in the same call of the state function.  Plain machines: transitions only (what a
+        # transition requested after done() in the same call means is not something the properties say);
+        # autonomous machines: any two.
+        kinds = ["next", "now", "done"] if cfg["asm"] else ["next", "now"]
+        for i, a in enumerate(acts):
+            if rng.random() < style["p_seq"]:
+                subs = [[k1, None if k1 == "done" else rng.choice(names), rng.random() < 0.3]
+                        for k1 in (rng.choice(kinds), rng.choice(kinds))]
+                acts[i] = ["seq", subs, a[2] if a else 0, False]
+    if style.get("p_raise"):
+        # fault: the state function raises after doing whatever it does (the caller swallows it and re-engages)
+        for i, a in enumerate(acts):
+            if rng.random() < style["p_raise"]:
+                acts[i] = (list(a) if a else [None, None, 0, False]) + [True]
     while acts and acts[-1] is None:
         acts.pop()
     return acts
 
 
 def _model_acts(acts):
-    return [None if a is None else (a[0], a[1], a[2]) for a in acts]
+    return [None if a is None else
+            (a[0], [(x[0], x[1]) for x in a[1]] if a[0] == "seq" else a[1], a[2], len(a) > 4 and bool(a[4])) for a in acts]
+
+
+class SimStateFault(Exception):
+    """raised by a generated state function on request of the plan"""
+
+
+REENGAGE = ["engage", None, False, False]
 
 
 def _pick_dt(rng, cfg, style, model, now_us):
@@ -204,6 +228,8 @@ def generate(seed, prop, tier, index=0):
         "jitter_us": rng.choice([0, 50, 2000, 9000]),
         "p_init": rng.choice([0.0, 0.1, 0.3]),
         "p_force": rng.choice([0.0, 0.0, 0.05, 0.2]),
+        "p_raise": rng.choice([0.0, 0.0, 0.0, 0.03, 0.1]),
+        "p_seq": rng.choice([0.0, 0.0, 0.0, 0.05, 0.2]),
     }
     if prop == "C02":
         style["p_engage"] = rng.choice([1.0, 1.0, 1.0, 0.9])
@@ -220,7 +246,8 @@ def generate(seed, prop, tier, index=0):
     def emit(op):
         ops.append(op)
         try:
-            _apply_model(model, clock, cfg, op)
+            if _apply_model(model, clock, cfg, op) and op[0] == "exec":
+                _apply_model(model, clock, cfg, REENGAGE)       # what the executor does after a raising iteration
         except Inconclusive:
             pass
         model.take()
@@ -228,7 +255,8 @@ def generate(seed, prop, tier, index=0):
     def emit_b(op):
         ops.append(["@", op])
         try:
-            _apply_model(model_b, clock, cfg, op)
+            if _apply_model(model_b, clock, cfg, op) and op[0] == "exec":
+                _apply_model(model_b, clock, cfg, REENGAGE)
         except Inconclusive:
             pass
         model_b.take()
@@ -327,6 +355,15 @@ def _gen_ntdur(rng, cfg, timed):
 
 
 def _apply_model(model, clock, cfg, op):
+    """Returns True when a state function raised (injected) during this op."""
+    try:
+        _apply_model_(model, clock, cfg, op)
+    except sm_model.StateRaised:
+        return True
+    return False
+
+
+def _apply_model_(model, clock, cfg, op):
     k = op[0]
     if k == "adv":
         clock(op[1])
@@ -426,6 +463,7 @@ class _Harness:
         self.acts = []
         self.ctx_of = {}
         self.default_name = None
+        self.asm = False
 
     def call(self, inst, name, cls, args):
         c = self.ctx_of.get(id(inst))
@@ -436,19 +474,22 @@ class _Harness:
         self.events.append(("CALL", name, cls, dict(args), self.world.now_us(), sub.get() if sub is not None else None,
                             list(act) if act else None))
         if act:
-            a, target, stall, byobj = act
+            a, target, stall, byobj = act[:4]
             if stall:
                 self.world.advance(stall)
-            if a in ("next", "now"):
-                if not hasattr(type(inst), str(target)):
-                    return
-                ref = getattr(type(inst), target) if byobj else target
-                if a == "next":
-                    inst.next_state(ref)
-                else:
-                    inst.next_state_now(ref)
-            elif a == "done":
-                inst.done()
+            for n1, (a1, t1, byobj1) in enumerate(target if a == "seq" else [(a, target, byobj)]):
+                if n1 and not self.asm and not inst.is_executing:
+                    break       # a state function of a plain machine does nothing more once its machine stopped
+                if a1 in ("next", "now") and hasattr(type(inst), str(t1)):
+                    ref = getattr(type(inst), t1) if byobj1 else t1
+                    if a1 == "next":
+                        inst.next_state(ref)
+                    else:
+                        inst.next_state_now(ref)
+                elif a1 == "done":
+                    inst.done()
+            if len(act) > 4 and act[4]:
+                raise SimStateFault(name)
 
     def done_called(self, inst):
         self.events.append(("DONE",))
@@ -489,6 +530,7 @@ def execute(plan, trace=False):
     H = _Harness(world)
     Leaf._sim = H
     H.default_name = cfg.get("default")
+    H.asm = bool(cfg["asm"])
     prefix = "autonomous" if cfg["asm"] else "components"
     nt = ntcore.NetworkTableInstance.getDefault()
     sdef = {s["name"]: s for s in cfg["states"]}
@@ -517,6 +559,7 @@ def execute(plan, trace=False):
         c.cs_pub = ntcore.StringTopic(nt.getTopic(f"{base_key}/current_state")).publish()
         c.model = _mk_model(cfg if k == 0 else dict(cfg, pre_nt={}), vclock)
         c.asm_enabled_once = False
+        c.cs_loose = False
         c.history = []
         c.inst = None
         return c
@@ -562,7 +605,10 @@ def execute(plan, trace=False):
     foreign = None
     digest_log = []
     try:
-        for idx, op0 in enumerate(plan["ops"]):
+        todo = [(i, o) for i, o in enumerate(plan["ops"])]
+        pos = -1
+        for idx, op0 in todo:
+            pos += 1
             op, c = op0, ctxs[0]
             if op0[0] == "@":
                 if len(ctxs) < 2:
@@ -574,8 +620,9 @@ def execute(plan, trace=False):
             pre_abs = model.abstract()
             pre_running = model.executing or (model.cur is not None and model.cur != model.default)
             # ---- model
-            _apply_model(model, vclock, cfg, op)
+            m_raised = _apply_model(model, vclock, cfg, op)
             mev = model.take()
+            i_raised = False
             # ---- implementation
             exc = None
             t0 = world.now_us()
@@ -598,14 +645,20 @@ def execute(plan, trace=False):
                     inst.on_disable()
                 elif k == "exec":
                     if not cfg["asm"]:
-                        inst.execute()
+                        try:
+                            inst.execute()
+                        except SimStateFault:
+                            i_raised = True
                 elif k == "enable":
                     if cfg["asm"]:
                         inst.on_enable()
                         c.asm_enabled_once = True
                 elif k == "iter":
                     if cfg["asm"] and c.asm_enabled_once:
-                        inst.on_iteration(world.now_us() * 1e-6)
+                        try:
+                            inst.on_iteration(world.now_us() * 1e-6)
+                        except SimStateFault:
+                            i_raised = True
                 elif k == "ntdur":
                     if op[1] in c.pubs:
                         c.pubs[op[1]].set(op[2])
@@ -623,6 +676,12 @@ def execute(plan, trace=False):
             except Exception as e:  # raised by the code under test
                 exc = f"{type(e).__name__}: {e}"
             iev = H.take()
+            if m_raised or i_raised:
+                fault("state_function_raises")
+                if k == "exec":
+                    # the caller swallows the exception and asks again before the next iteration (whether an
+                    # abandoned iteration consumed the previous request is not something the properties say)
+                    todo.insert(pos + 1, (idx, ["@", REENGAGE] if op0[0] == "@" else REENGAGE))
             i_after = None
             if exc is None:
                 try:
@@ -630,7 +689,8 @@ def execute(plan, trace=False):
                 except Exception as e:
                     exc = f"{type(e).__name__}: {e}"
             m_after = (model.executing, model.cs)
-            c.history.append({"i": idx, "op": op, "t0": t0, "t": world.now_us(), "ev": iev, "after": i_after, "mev": mev})
+            c.history.append({"i": idx, "op": op, "t0": t0, "t": world.now_us(), "ev": iev, "after": i_after, "mev": mev,
+                              "raised": i_raised})
             digest_log.append([idx, c.k, world.now_us(), iev, i_after])
             if tr is not None:
                 tr.append(f"[{idx}] t={world.now_us()}us {'machine B ' if c.k else ''}op={op}  model={mev} -> {m_after}   impl={iev} -> {i_after}" + (f"  EXC {exc}" if exc else ""))
@@ -645,6 +705,11 @@ def execute(plan, trace=False):
                 shape.append((c.k, k))
             _probes(probe, fault, k, op, mev, model, pre_abs, pre_running)
             # ---- compare
+            if model.loose and not c.cs_loose:
+                probe("transition_after_stop_in_one_call")
+            c.cs_loose = model.loose
+            if c.cs_loose and i_after is not None:
+                i_after = (i_after[0], m_after[1], m_after[1])
             if vclock.us != world.now_us() and exc is None and _calls_equal(mev, iev) and foreign is None:
                 return {"status": "error", "error": f"virtual clock {vclock.us} != HAL clock {world.now_us()} at op {idx}"}
             diff = _compare(cfg, sdef, k, mev, iev, m_after, i_after, exc, exact, pre_running)
@@ -656,6 +721,8 @@ def execute(plan, trace=False):
                 except Exception as e:
                     got = f"{type(e).__name__}: {e}"
                 want = (o.model.executing, o.model.cs, o.model.cs)
+                if o.cs_loose and isinstance(got, tuple):
+                    got = (got[0],) + want[1:]
                 if got != want:
                     kind = "is_executing" if not isinstance(got, tuple) or got[0] != want[0] else "current_state" if got[1] != want[1] else "current_state_nt"
                     diff = (kind, f"the other live machine ({o.cname}) now reports (is_executing, current_state, NT current_state) = {got}, expected {want}: machines interfere")
@@ -812,7 +879,16 @@ def simplify(plan):
                     yield dict(plan, ops=ops[:i] + [[op[0], na]] + ops[i + 1:])
                     if a[2]:
                         na = list(op[1])
-                        na[j] = [a[0], a[1], 0, a[3]]
+                        na[j] = [a[0], a[1], 0] + list(a[3:])
+                        yield dict(plan, ops=ops[:i] + [[op[0], na]] + ops[i + 1:])
+                    if a[0] == "seq":
+                        for x in a[1]:
+                            na = list(op[1])
+                            na[j] = [x[0], x[1], a[2], x[2]] + list(a[4:])
+                            yield dict(plan, ops=ops[:i] + [[op[0], na]] + ops[i + 1:])
+                    if len(a) > 4 and a[4]:
+                        na = list(op[1])
+                        na[j] = list(a[:4])
                         yield dict(plan, ops=ops[:i] + [[op[0], na]] + ops[i + 1:])
         if op[0] == "engage" and (op[1] or op[2]):
             yield dict(plan, ops=ops[:i] + [["engage", None, False, False]] + ops[i + 1:])
@@ -825,7 +901,9 @@ def simplify(plan):
     for op in ops:
         if op[0] in ("exec", "iter"):
             for a in op[1] or []:
-                if a and a[1]:
+                if a and a[0] == "seq":
+                    used.update(x[1] for x in a[1] if x[1])
+                elif a and a[1]:
                     used.add(a[1])
         if op[0] == "engage" and op[1]:
             used.add(op[1])
